@@ -19,9 +19,13 @@ from .. import common as C
 
 ID = "C01"
 HEADER = "From A816 Require Import Oracle.C01o.\nRequire Import Run.GenOpcodes Run.GenBuses."
-CASE_TYPE = "case"
-CHECK = "check Run.GenOpcodes.opcode_table Run.GenBuses.low_rom_bus"
-MODEL_VIEW = "model_view Run.GenOpcodes.opcode_table Run.GenBuses.low_rom_bus"
+# (case, lenient): a lenient case is one the assembler may also refuse (its operand symbol has another value while labels
+# are resolved: the phase check of C02 then rejects it); when it is accepted, the bytes must still be the ISA encoding for the
+# value the operand has at emission.  The emitter model is not asked about lenient cases (the passes belong to C02).
+CASE_TYPE = "case * bool"
+CHECK = ("fun x : case * bool => let r := check Run.GenOpcodes.opcode_table Run.GenBuses.low_rom_bus (fst x) in "
+         "if snd x then (true, match c_impl (fst x) with OErr _ => true | _ => snd r end) else r")
+MODEL_VIEW = "fun x : case * bool => model_view Run.GenOpcodes.opcode_table Run.GenBuses.low_rom_bus (fst x)"
 THEOREMS = [
     "C01_table_sound_generic", "C01_supported_kept_generic", "C01_supported_assembles", "C01_width_char",
     "C01_width_negative", "C01_emit_value", "C01_pack_decode", "C01_pack_length", "C01_emit", "C01_emit_accepts",
@@ -223,6 +227,17 @@ def cases(ctx):
             suffix = rng.choice(SUFFIXES)
             vk, v, et = rng.choice(_variants(mn, shape))
             out.append(build(mn, shape, suffix, vk, v, et, rng.choice(LCASES)))
+    # the operand symbol is re-defined in an inner scope (`=` is not seen by the label pass): if the statement is accepted
+    # at all, its width and bytes must be those of the value it has when it is emitted
+    for mn, shape in (("lda", "dir"), ("sta", "dir"), ("lda", "dirx"), ("adc", "dir"), ("ldx", "dir"), ("cmp", "dirx"), ("jmp", "dir")):
+        for outer in (0x10, 0x1234, 0x123456):
+            for inner in (0x12, 0xFF, 0x100, 0x1234, 0xFFFF, 0x10000, 0x123456):
+                c = build(mn, shape, None, "sym", inner, None, "lower")
+                c["src"] = (f"*=0x008000\nsome_val := {_hex(outer, False)}\n{{\nsome_val = {_hex(inner, False)}\n"
+                            f"{c['stmt']}\n}}\n")
+                c["valkind"] = "shadow"
+                c["lenient"] = True
+                out.append(c)
     # negative operands (outside the property's width rule; truncation and the model's sign handling)
     for mn in ("lda", "sta", "jmp", "ldx", "rep"):
         for shape in ("imm", "dir", "dirx"):
@@ -325,10 +340,11 @@ def _blocks(bl) -> str:
 
 
 def coq_term(case, ob):
+    lenient = C.cbool(bool(case.get("lenient")))
     if "impl" not in ob:   # timeout / driver error
-        return f"(C {C.cstr(case['mn'])} {SHAPE[case['shape']][1]} {_size(case['suffix'])} {C.z(case['v'])} OTimeout OTimeout)"
+        return f"(C {C.cstr(case['mn'])} {SHAPE[case['shape']][1]} {_size(case['suffix'])} {C.z(case['v'])} OTimeout OTimeout, {lenient})"
     return (f"(C {C.cstr(case['mn'])} {SHAPE[case['shape']][1]} {_size(case['suffix'])} {C.z(case['v'])} "
-            f"{_obs(ob['ast'], _ast)} {_obs(ob['impl'], _blocks)})")
+            f"{_obs(ob['ast'], _ast)} {_obs(ob['impl'], _blocks)}, {lenient})")
 
 
 def nontrivial_key(case, ob):
